@@ -22,7 +22,7 @@ let mk_handler (spec : string) (data : byte list) : handler =
     let c = List.hd calls in
     let exact () =
       let suffix = drop (int_of_z c.c_p) data in
-      match i_skipValue suffix [] with
+      match x_skipValue suffix [] with
       | MDone (p, None, _) -> p
       | _ -> Z0 in
     if e = "x" then { h_pp = exact (); h_err = None; h_havoc = [] }
@@ -76,20 +76,20 @@ let dec_res (show : 'a -> string) (r : ((z * errk option) * 'a) option) : string
 let run_case (f : string array) : string =
   let op = f.(0) in
   match op with
-  | "skip" -> let d = unhex f.(1) in okp (i_skipValue d (stack_or_empty f.(2))) (List.length d)
-  | "skipfast" -> let d = unhex f.(1) in okp (i_skipValueFast d (stack_or_empty f.(2))) (List.length d)
+  | "skip" -> let d = unhex f.(1) in okp (x_skipValue d (stack_or_empty f.(2))) (List.length d)
+  | "skipfast" -> let d = unhex f.(1) in okp (x_skipValueFast d (stack_or_empty f.(2))) (List.length d)
   | "valid" ->
-    (match fst (i_Valid (unhex f.(1)) (parse_stack f.(2))) with
+    (match fst (x_Valid (unhex f.(1)) (parse_stack f.(2))) with
      | Some b -> b2s b | None -> "abn # model")
   | "harr" | "hobj" ->
     let d = unhex f.(1) in
     let h = mk_handler f.(2) d in
     let st = if f.(3) = "nobuf" then [] else stack_or_empty f.(3) in
-    let r = if op = "harr" then i_handleArrayValues d h st else i_handleObjectValues d h st in
+    let r = if op = "harr" then x_handleArrayValues d h st else x_handleObjectValues d h st in
     handler_obs r (op = "hobj") (List.length d)
-  | "rnull" -> pres_ok (i_ReadNull (unhex f.(1)))
+  | "rnull" -> pres_ok (x_ReadNull (unhex f.(1)))
   | "rbool" ->
-    (match i_ReadBool (unhex f.(1)) with
+    (match x_ReadBool (unhex f.(1)) with
      | Inl ((v, p), None) -> Printf.sprintf "ok %s %s" (b2s v) (string_of_z p)
      | Inl (_, Some _) -> "err"
      | Inr _ -> "abn # model")
@@ -110,18 +110,18 @@ let run_case (f : string array) : string =
   | "i32" -> int_res (readInt32 (unhex f.(1)))
   | "int" -> int_res (readInt (unhex f.(1)))
   | "rsb" ->
-    (match i_ReadStringBytes (unhex f.(1)) (unhex f.(2)) with
+    (match x_ReadStringBytes (unhex f.(1)) (unhex f.(2)) with
      | Some ((v, p), None) -> Printf.sprintf "ok %s %s" (string_of_z p) (hx v)
      | Some (_, Some _) -> "err"
      | None -> "abn # model")
   | "rs" ->
     let buf = if f.(2) = "nil" then None else Some (unhex f.(2)) in
-    (match i_ReadString (unhex f.(1)) buf with
+    (match x_ReadString (unhex f.(1)) buf with
      | Some (((v, p), None), _) -> Printf.sprintf "ok %s %s" (string_of_z p) (hx v)
      | Some ((_, Some _), _) -> "err"
      | None -> "abn # model")
   | "usc" | "aros" ->
-    let fn = if op = "usc" then i_UnescapeStringContent else i_appendRemainderOfString in
+    let fn = if op = "usc" then x_UnescapeStringContent else x_appendRemainderOfString in
     (match fn (unhex f.(1)) (unhex f.(2)) with
      | Some ((v, p), None) -> Printf.sprintf "ok %s %s" (string_of_z p) (hx v)
      | Some (_, Some _) -> "err"
@@ -137,16 +137,16 @@ let run_case (f : string array) : string =
   | "dec" ->
     let ty = f.(1) and d = unhex f.(2) and init = f.(3) in
     (match ty with
-     | "i64" -> dec_res string_of_z (i_DecodeInt64 d (z_of_string init))
-     | "i32" -> dec_res string_of_z (i_DecodeInt32 d (z_of_string init))
-     | "int" -> dec_res string_of_z (i_DecodeInt d (z_of_string init))
-     | "u64" -> dec_res string_of_z (i_DecodeUint64 d (z_of_string init))
-     | "u32" -> dec_res string_of_z (i_DecodeUint32 d (z_of_string init))
-     | "uint" -> dec_res string_of_z (i_DecodeUint d (z_of_string init))
-     | "bool" -> dec_res b2s (i_DecodeBool d (init = "true"))
+     | "i64" -> dec_res string_of_z (x_DecodeInt64 d (z_of_string init))
+     | "i32" -> dec_res string_of_z (x_DecodeInt32 d (z_of_string init))
+     | "int" -> dec_res string_of_z (x_DecodeInt d (z_of_string init))
+     | "u64" -> dec_res string_of_z (x_DecodeUint64 d (z_of_string init))
+     | "u32" -> dec_res string_of_z (x_DecodeUint32 d (z_of_string init))
+     | "uint" -> dec_res string_of_z (x_DecodeUint d (z_of_string init))
+     | "bool" -> dec_res b2s (x_DecodeBool d (init = "true"))
      | "str" ->
        let buf = if Array.length f > 4 && f.(4) <> "nil" then Some (unhex f.(4)) else None in
-       dec_res hx (i_DecodeString d (unhex init) buf)
+       dec_res hx (x_DecodeString d (unhex init) buf)
      | _ -> Driver2.dec_case f)
   | _ -> (match Driver_fp.run_case f with Some r -> r | None -> Driver2.run_case f)
 
